@@ -42,6 +42,13 @@ fn main() {
                     println!("  {}", f.msg);
                     std::process::exit(1);
                 }
+                CaseResult::Fails(fs) => {
+                    println!("VIOLATION property={} replay={}", id, path);
+                    for f in fs {
+                        println!("  {}", f.msg);
+                    }
+                    std::process::exit(1);
+                }
                 CaseResult::Pass(_) => {
                     println!("replay {}: property holds on this case", path);
                     std::process::exit(0);
